@@ -58,6 +58,9 @@ type (
 		rank int
 	}
 	tupleV []Val
+	// listV is a slice known only as the concatenation of named segments
+	// (an input slice is one segment named by its access path).
+	listV struct{ segs []string }
 	// refV is the address of a local variable (for &x passed to a callee).
 	refV struct {
 		env  *env
@@ -448,9 +451,6 @@ func (f *frame) store(l ast.Expr, v Val, e *env, define bool) {
 		o := asObj(base)
 		if o == nil {
 			outOfFragment("%s: store through %s", f.name, types.ExprString(l))
-		}
-		if o.path != "" && o.path != "\x00zero" {
-			outOfFragment("%s: store into input object %s", f.name, types.ExprString(l))
 		}
 		o.fields[l.Sel.Name] = copyStruct(v)
 		return
@@ -930,6 +930,32 @@ func (f *frame) call(x *ast.CallExpr, e *env) Val {
 				if o, ok := v.(ordV); ok && o.sort == "len" {
 					return o
 				}
+			case "append":
+				base := f.expr(x.Args[0], e)
+				var out listV
+				switch b := base.(type) {
+				case listV:
+					out.segs = append(out.segs, b.segs...)
+				case nilV:
+				default:
+					outOfFragment("%s: append to %T", f.name, base)
+				}
+				for i, a := range x.Args[1:] {
+					v := f.expr(a, e)
+					if x.Ellipsis.IsValid() && i == len(x.Args)-2 {
+						l, ok := v.(listV)
+						if !ok {
+							if _, isNil := v.(nilV); isNil {
+								continue
+							}
+							outOfFragment("%s: append(…, %T...)", f.name, v)
+						}
+						out.segs = append(out.segs, l.segs...)
+					} else {
+						out.segs = append(out.segs, "elem:"+showVal(v))
+					}
+				}
+				return out
 			case "panic":
 				outOfFragment("%s: reaches panic(%s)", f.name, types.ExprString(x.Args[0]))
 			}
@@ -1019,7 +1045,7 @@ func (f *frame) convert(v Val, t types.Type, at ast.Expr) Val {
 			}
 			return x
 		}
-	case ordV, symV, setV, nilV:
+	case ordV, symV, setV, nilV, listV:
 		return v
 	case ptrV:
 		// (*imap.StatusResponse)(imapErr) and the like
@@ -1170,6 +1196,8 @@ func showVal(v Val) string {
 			s = append(s, showVal(e))
 		}
 		return "(" + strings.Join(s, ", ") + ")"
+	case listV:
+		return "[" + strings.Join(x.segs, " ++ ") + "]"
 	case setV:
 		var ks []string
 		for k := range x.members {
